@@ -199,9 +199,19 @@ theorem C19_rated_voltage_positive :
     ∀ s ∈ ctorSpecs, ∀ p ∈ s.params, p.1 = "V_ref" → (⟨"V_ref", Cmp.le, 0, "ValueError"⟩ : Guard) ∈ s.guards := by
   decide
 
-/-- … and `<= 0` is used for nothing else: for every other parameter the value 0 is legal -/
+/-- **C19 (fundamental of a periodic source).**  A periodic source needs a finite period: every
+constructor that takes a `wavetype` guards `w` with `if w <= 0: raise ValueError`.  (Until fix
+149a545 `w = 0` was accepted and the component could not be analysed.) -/
+theorem C19_fundamental_positive :
+    ∀ s ∈ ctorSpecs, ("wavetype", PTy.str, none) ∈ s.params → (⟨"w", Cmp.le, 0, "ValueError"⟩ : Guard) ∈ s.guards :=
+  C07_periodic_fundamental_guarded
+
+/-- … and `<= 0` is used for nothing else: 0 is a fault only for a rated voltage and for the
+fundamental of a periodic source; for every other parameter — the frequency of a DC / AC source
+included — the value 0 is legal -/
 theorem C19_only_rated_voltage_strict :
-    ∀ s ∈ ctorSpecs, ∀ g ∈ s.guards, g.cmp = Cmp.le → g.param = "V_ref" := by decide
+    ∀ s ∈ ctorSpecs, ∀ g ∈ s.guards, g.cmp = Cmp.le →
+      g.param = "V_ref" ∨ (g.param = "w" ∧ ("wavetype", PTy.str, none) ∈ s.params) := by decide
 
 /-- **C19 (negative).**  A constructor call whose arguments bind, and in which some guard
 `if p <cmp> bound: raise` is met by the value of `p`, raises — whatever the other arguments,
@@ -261,16 +271,16 @@ theorem C19_zero_passes_guards (s : CtorSpec) (hs : s ∈ ctorSpecs) (env : List
     have : ¬ q ≤ 0 := by grind
     simp [Guard.check, hq, hc, hb, Cmp.holds, this]
 
-/-- arguments that set every real parameter to 0 — except the rated voltage, set to 1 —
-(complex ones to 0, wavetype to "cos") -/
+/-- arguments that set every real parameter to 0 — except the rated voltage and the fundamental
+of a periodic source, set to 1 — (complex ones to 0, wavetype to "cos") -/
 def zeroArgs (s : CtorSpec) : List (String × Val) :=
   s.params.map fun p => (p.1, match p.2.1 with
-    | .real => if p.1 = "V_ref" then Val.num 1 else Val.num 0
+    | .real => if p.1 = "V_ref" ∨ (p.1 = "w" ∧ ("wavetype", PTy.str, none) ∈ s.params) then Val.num 1 else Val.num 0
     | .cplx => Val.cplx 0 0
     | .str => Val.str "cos")
 
 /-- **C19 (boundary).**  The value exactly 0 is accepted by every constructor for every
-parameter other than the rated voltage. -/
+parameter other than the rated voltage and the fundamental of a periodic source. -/
 theorem C19_zero_accepted :
     ∀ s ∈ ctorSpecs, (s.construct (some "x") (some ["a", "b"]) (zeroArgs s)).toOption.isSome = true := by
   decide +kernel
